@@ -317,6 +317,10 @@ def explore(
             try:
                 res = PathResult("ok", fn(ctx), None, ctx)
             except catch as e:  # library-level exception = an outcome of the path
+                if isinstance(e, (TypeError, AttributeError)) and any(
+                        k in str(e) for k in ("SymReal", "SymBool", "SymStr", "SymChar", "FinStr", "SymFile")):
+                    # the code did something with a proxy that the proxy does not model: not a library outcome
+                    raise Unsupported(f"proxy operation not modelled: {type(e).__name__}: {e}")
                 res = PathResult("exc", e, None, ctx)
             res.pc = list(ctx.pc)
             stats.paths += 1
@@ -512,6 +516,24 @@ class SymReal:
 
     def is_integer(self):
         return SymBool(z3.IsInt(self.e))
+
+    def __round__(self, ndigits=None):
+        return rounded_to_digits(self, 0 if ndigits is None else ndigits)
+
+    def __trunc__(self):
+        return sym_int(self)
+
+    def __floor__(self):
+        ctx = Ctx.cur
+        k = z3.Int(f"fl!{_content_id(self.e)}")
+        ctx.add(z3.And(z3.ToReal(k) <= self.e, self.e < z3.ToReal(k) + 1))
+        return SymReal(z3.ToReal(k))
+
+    def __ceil__(self):
+        ctx = Ctx.cur
+        k = z3.Int(f"ce!{_content_id(self.e)}")
+        ctx.add(z3.And(z3.ToReal(k) >= self.e, self.e > z3.ToReal(k) - 1))
+        return SymReal(z3.ToReal(k))
 
     def __float__(self):
         raise Unsupported("float() of a symbolic real (C boundary)")
